@@ -396,6 +396,23 @@ Theorem C20_accept_with_probe fuel l leaves :
 Proof. exact (accept_with_probe fuel l leaves). Qed.
 Print Assumptions C20_accept_with_probe.
 
+(* ... whatever options accompany the call (probe=, adc_time, asarray, init, max_nstate, callback) *)
+Theorem C20_reject_no_probe_any_options o fuel l leaves :
+  flatten fuel l = Some leaves -> existsb is_probe leaves = false ->
+  simulate_call_ok o fuel l = Reject ValueError.
+Proof. exact (reject_no_probe_any_options o fuel l leaves). Qed.
+Print Assumptions C20_reject_no_probe_any_options.
+
+Theorem C20_reject_non_operator_item_any_options o l fuel : has_nonop l -> simulate_call_ok o fuel l = Reject ValueError.
+Proof. exact (reject_non_operator_item_any_options o l fuel). Qed.
+Print Assumptions C20_reject_non_operator_item_any_options.
+
+Theorem C20_accept_with_probe_any_options o fuel l leaves :
+  flatten fuel l = Some leaves -> leaves <> [] -> bshapes_ok (map leaf_shape leaves) = true ->
+  existsb is_probe leaves = true -> simulate_call_ok o fuel l = Accept.
+Proof. exact (accept_with_probe_any_options o fuel l leaves). Qed.
+Print Assumptions C20_accept_with_probe_any_options.
+
 Theorem C20_reject_non_virtual_operator pre post : seq_check_ok (pre ++ false :: post) = Reject ValueError.
 Proof. exact (reject_non_virtual_operator pre post). Qed.
 Print Assumptions C20_reject_non_virtual_operator.
